@@ -448,13 +448,13 @@ static const char *const rc_lines[] = {
 	"nameserver 1.2.3.4", "nameserver 1.2.3.4:5353", "nameserver ::1", "nameserver [::1]:5353", "nameserver [2001:db8::7]", "nameserver 2001:db8::7",
 	"nameserver 10.0.0.1 10.0.0.2", "nameserver\t10.0.0.3", "nameserver  10.0.0.4  ", "nameserver 1.2.3", "nameserver 1.2.3.4.5", "nameserver 256.1.1.1",
 	"nameserver 1.2.3.4:0", "nameserver 1.2.3.4:65536", "nameserver 1.2.3.4:", "nameserver [::1", "nameserver ::1::2", "nameserver", "nameserver ", "nameserverx 9.9.9.9",
-	"nameserver localhost", "nameserver 1.2.3.4:65535",
+	"nameserver localhost", "nameserver 1.2.3.4:65535", "nameserver 1.2.3.4:53x", "nameserver 1.2.3.4:5.3", "nameserver [::1]:53x", "nameserver 1.2.3.4:+53",
 	"domain a.example", "domain", "domain x.example y.example", "search a.example b.example", "search s1.example", "search", "search a b c d e f g h",
 	"search  two.example\tthree.example ",
 	"options ndots:2", "options ndots:0", "options ndots:15", "options ndots:x", "options ndots:", "options ndots", "options ndots:2x", "options ndots:3 timeout:4 attempts:2",
 	"options ndots:x timeout:7", "options timeout:7 ndots:x attempts:3", "options timeout:1", "options timeout:30", "options timeout:x", "options timeout:",
 	"options attempts:1", "options attempts:5", "options attempts:y", "options max-timeouts:4", "options max-inflight:2", "options max-inflight:q",
-	"options randomize-case:0", "options randomize-case:1", "options bind-to:127.0.0.1", "options bind-to:nonsense", "options initial-probe-timeout:20",
+	"options randomize-case:0", "options randomize-case:1", "options bind-to:127.0.0.1", "options bind-to:nonsense", "options bind-to:127.0.0.1:7x", "options initial-probe-timeout:20",
 	"options max-probe-timeout:5", "options max-probe-timeout:100 initial-probe-timeout:50", "options initial-probe-timeout:50 max-probe-timeout:7", "options probe-backoff-factor:2",
 	"options getaddrinfo-allow-skew:5", "options so-rcvbuf:8192", "options so-sndbuf:4096", "options tcp-idle-timeout:9", "options use-vc", "options ignore-tc",
 	"options use-vc:1", "options ignore-tc use-vc", "options edns-udp-size:1232", "options edns-udp-size:big", "options rotate", "options unknown:5 ndots:4", "options", "options :", "options ::",
@@ -473,7 +473,7 @@ static const char *const hosts_tok[10] = { "1.2.3.4", "::1", "a", "b.c", " ", "\
 static const char hosts_chr[10] = { '1', '.', ':', ' ', '\t', '\n', '#', 'a', '\r', 'f' };
 
 static const char *const opt_vals[] = { NULL, "", "0", "1", "2", "5", "15", "16", "30", "255", "256", "512", "3600", "3601", "65000", "65535", "65536", "99999999999",
-	"-1", "-2", "+1", "x", "1x", "x1", "1.5", "0.0005", "1e3", " 1", "1 ", "127.0.0.1", "::1", "1.2.3.4:5", "[::1]:53", "bad.addr", "1.2.3.4.5" };
+	"-1", "-2", "+1", "x", "1x", "x1", "1.5", "0.0005", "1e3", " 1", "1 ", "127.0.0.1", "::1", "1.2.3.4:5", "[::1]:53", "bad.addr", "1.2.3.4.5", "1.2.3.4:5x" };
 #define N_OPTVALS ((int)(sizeof opt_vals / sizeof opt_vals[0]))
 static const char *const opt_extra_names[] = { "", ":", "x", "ndot", "ndotss", "timeoutx", "attempt", "use", "rotate", "ndots:5", "timeout:junk", "bind-to:1.2.3.4" };
 #define N_EXTRA ((int)(sizeof opt_extra_names / sizeof opt_extra_names[0]))
@@ -487,7 +487,7 @@ static const char *optname(int i, char *buf, size_t n)
 /* reduced sets for ordered pairs of calls */
 static const char *const pair_vals[] = { "", "2", "7", "x" };
 
-static int LEN = 4;
+static int LEN = 4, LEN_R, LEN_H, LEN_C;
 static uint64_t n_G1, n_G2, n_R, n_H, n_C, n_O1, n_O2;
 static uint64_t pow10_upto(int len) { uint64_t t = 0, p = 1; for (int l = 0; l <= len; l++) { t += p; p *= 10; } return t; }   /* strings of length 0..len */
 
@@ -630,11 +630,19 @@ static void init(void)
 
 int main(int argc, char **argv)
 {
-	for (int i = 1; i + 1 < argc; i++) if (!strcmp(argv[i], "-P") && !strncmp(argv[i + 1], "len=", 4)) LEN = atoi(argv[i + 1] + 4);
+	for (int i = 1; i + 1 < argc; i++) if (!strcmp(argv[i], "-P")) {
+		if (!strncmp(argv[i + 1], "len=", 4)) LEN = atoi(argv[i + 1] + 4);
+		if (!strncmp(argv[i + 1], "lenR=", 5)) LEN_R = atoi(argv[i + 1] + 5);
+		if (!strncmp(argv[i + 1], "lenH=", 5)) LEN_H = atoi(argv[i + 1] + 5);
+		if (!strncmp(argv[i + 1], "lenC=", 5)) LEN_C = atoi(argv[i + 1] + 5);
+	}
 	if (LEN < 1) LEN = 1;
 	if (LEN > 7) LEN = 7;
+	if (LEN_R < 1 || LEN_R > 7) LEN_R = LEN;
+	if (LEN_H < 1 || LEN_H > 7) LEN_H = LEN;
+	if (LEN_C < 1 || LEN_C > 7) LEN_C = LEN;
 	n_G1 = (uint64_t)N_RC * N_FLAGSETS * 3; n_G2 = (uint64_t)N_RC * N_RC * 2;
-	n_R = pow10_upto(LEN); n_H = pow10_upto(LEN); n_C = pow10_upto(LEN);
+	n_R = pow10_upto(LEN_R); n_H = pow10_upto(LEN_H); n_C = pow10_upto(LEN_C);
 	n_O1 = (uint64_t)N_OPTNAMES * N_OPTVALS; n_O2 = (uint64_t)N_OPTNAMES * 4 * N_OPTNAMES * 4;
 	struct mc_config cfg = { .property = "C39", .n_items = n_G1 + n_G2 + n_R + n_H + n_C + n_O1 + n_O2, .item = item, .init = init };
 	return mc_main(argc, argv, &cfg);
